@@ -329,6 +329,9 @@ func allOptsOfFile(f *File) []Opt {
 	walkF := func(fl *Field) { out = append(out, fl.Options...) }
 	walkM = func(m *Message) {
 		out = append(out, m.Options...)
+		for _, r := range m.ExtRanges {
+			out = append(out, r.Options...)
+		}
 		for _, fl := range m.Fields {
 			walkF(fl)
 			if fl.Group != nil {
